@@ -10,7 +10,7 @@ IDS=${@:-C01 C02 C03 C04 C05 C06 C07 C08 C09 C10 C11 C12 C13 C14 C15 C16 C17 C18
 T=/tmp/verif-cov
 rm -rf $T; mkdir -p $T/prof
 LLVM=$(dirname "$(find ~/.rustup/toolchains/nightly-x86_64-unknown-linux-gnu -name llvm-profdata | head -1)")
-(cd harness && CARGO_NET_OFFLINE=true RUSTFLAGS="-C instrument-coverage" CARGO_TARGET_DIR=$T/target cargo +nightly build --offline 2>&1 | tail -1)
+(cd harness && LLVM_PROFILE_FILE="$T/build-%p.profraw" CARGO_NET_OFFLINE=true RUSTFLAGS="-C instrument-coverage" CARGO_TARGET_DIR=$T/target cargo +nightly build --offline 2>&1 | tail -1)
 for id in $IDS; do
   VERIF_COVERAGE_HBIN=$T/target/debug/harness LLVM_PROFILE_FILE="$T/prof/%p-%m.profraw" ./check $id --tier $TIER | tail -1
 done
